@@ -648,6 +648,13 @@ func mon(name, detail string) {
 }
 
 func child(seed uint64, dur time.Duration, workers int) {
+	// a slice of the budget goes to the rounds aimed at the root's child table (see rootOverlap); the rest is the stress
+	roBudget := dur * 3 / 20
+	if roBudget > 45*time.Second {
+		roBudget = 45 * time.Second
+	}
+	rootOverlap(seed, roBudget)
+	dur -= roBudget
 	lg := log.NewSilentLogger()
 	h := &H{seed: seed, lg: lg}
 	h.strategy = vivid.OneForOneStrategy(vivid.SupervisionStrategyDecisionMakerFN(func(ctx vivid.SupervisionContext) (vivid.SupervisionDecision, string) {
@@ -992,6 +999,332 @@ func child(seed uint64, dur time.Duration, workers int) {
 	js, _ := json.Marshal(info)
 	fmt.Printf("XVINFO\t%s\n", js)
 	fmt.Println("XVDONE")
+}
+
+// ---------------------------------------------------------------- child: tree consistency under spawn / termination overlap at the root
+//
+// System.ActorOf runs on the CALLER's goroutine, the death of a top-level actor is handled on the ROOT's mailbox
+// goroutine: the root is the only parent whose child table is written by two goroutines in the normal course of
+// things. The rounds below aim at exactly that overlap in the state in which it matters most - the root has one
+// (sometimes zero or two) top-level children and ALL of them terminate while several System.ActorOf calls are in
+// flight (actors whose OnPrelaunch takes 0.1 - 2 ms, so that the window NewContext .. insert-into-children is wide).
+// After every round the system is left to quiesce and the tree monitor is evaluated (registry <-> children of the
+// parent, both ways, for the top-level actors: exactly the actors spawned in the round and not yet killed); at the
+// end System.Stop must stop every actor ever spawned. One own real system; everything derives from the seed.
+
+type roActor struct {
+	name     string
+	delay    time.Duration
+	launched atomic.Bool
+	killedAt atomic.Int64 // unix nanos of its own OnKilled
+}
+
+func (a *roActor) OnPrelaunch(ctx vivid.PrelaunchContext) error {
+	if a.delay > 0 {
+		t0 := time.Now()
+		if a.delay > 500*time.Microsecond {
+			time.Sleep(a.delay - 300*time.Microsecond)
+		}
+		for time.Since(t0) < a.delay { // the rest is spun: sleeps of a few hundred microseconds overshoot a lot
+			runtime.Gosched()
+		}
+	}
+	return nil
+}
+
+func (a *roActor) OnReceive(ctx vivid.ActorContext) {
+	switch m := ctx.Message().(type) {
+	case *vivid.OnLaunch:
+		a.launched.Store(true)
+	case *vivid.OnKilled:
+		if m.Ref.Equals(ctx.Ref()) {
+			a.killedAt.Store(time.Now().UnixNano())
+		}
+	}
+}
+
+type roLive struct {
+	a   *roActor
+	ref vivid.ActorRef
+}
+
+func rootOverlap(seed uint64, budget time.Duration) {
+	t0 := time.Now()
+	r := lib.NewRand(seed*0x51ed2701 + 77)
+	lg := log.NewSilentLogger()
+	sys := actor.NewSystem(vivid.WithActorSystemLogger(lg), vivid.WithActorSystemStopTimeout(20*time.Second))
+	if err := sys.Start(); err != nil {
+		mon("child-died", "root-overlap phase: System.Start failed: "+err.Error())
+		return
+	}
+	rootMailbox := sys.Mailbox()
+	var everyone []roLive // every actor ever spawned successfully
+	var victims []roLive  // the root's current children
+	var names atomic.Uint64
+	spawn := func(delay time.Duration) (roLive, error) {
+		a := &roActor{delay: delay, name: fmt.Sprintf("ro-%d", names.Add(1))}
+		ref, err := sys.ActorOf(a, vivid.WithActorName(a.name))
+		return roLive{a, ref}, err
+	}
+	rounds, overlapped, lastChild, violations := 0, 0, 0, 0
+	histK := map[int]int{}
+	waitFor := func(limit time.Duration, cond func() bool) bool {
+		for dl := time.Now().Add(limit); ; {
+			if cond() {
+				return true
+			}
+			if time.Now().After(dl) {
+				return false
+			}
+			time.Sleep(100 * time.Microsecond)
+		}
+	}
+	rootIdle := func() bool {
+		u, sy, proc := mailbox.XVRacePending(rootMailbox)
+		return u+sy == 0 && !proc
+	}
+	deadline := t0.Add(budget)
+	for time.Now().Before(deadline) && violations == 0 {
+		rounds++
+		// the root gets exactly k children (survivors of the previous round first)
+		k := []int{1, 1, 1, 1, 1, 0, 2, 2}[r.Intn(8)]
+		for len(victims) < k {
+			v, err := spawn(0)
+			if err != nil {
+				mon("tree", "root-overlap: spawning a plain top-level actor on a quiescent system failed: "+err.Error())
+				violations++
+				break
+			}
+			everyone = append(everyone, v)
+			victims = append(victims, v)
+		}
+		for len(victims) > k { // surplus survivors die before the round starts
+			v := victims[len(victims)-1]
+			victims = victims[:len(victims)-1]
+			sys.Kill(v.ref, false, "root-overlap surplus")
+			waitFor(5*time.Second, func() bool { return v.a.killedAt.Load() != 0 })
+		}
+		if !waitFor(5*time.Second, func() bool {
+			for _, v := range victims {
+				if !v.a.launched.Load() {
+					return false
+				}
+			}
+			return rootIdle()
+		}) {
+			mon("hang", fmt.Sprintf("root-overlap round %d: the system did not become idle within 5 s before the round\n%s", rounds, stacks()))
+			break
+		}
+		histK[k]++
+		// N goroutines call System.ActorOf (slow OnPrelaunch) while every child of the root is killed
+		nsp := 2 + r.Intn(3)
+		jitter := time.Duration(r.Intn(900)) * time.Microsecond
+		poison := r.Bool()
+		type plan struct{ delays []time.Duration }
+		plans := make([]plan, nsp)
+		for i := range plans {
+			for j := 1 + r.Intn(2); j > 0; j-- {
+				plans[i].delays = append(plans[i].delays, time.Duration(100+r.Intn(1900))*time.Microsecond)
+			}
+		}
+		var wg sync.WaitGroup
+		var mu sync.Mutex
+		var fresh []roLive
+		var spawnErrs []string
+		var gate atomic.Bool
+		var firstStart, lastEnd atomic.Int64
+		for i := range plans {
+			pl := plans[i]
+			wg.Add(1)
+			go func() {
+				defer wg.Done()
+				for !gate.Load() {
+					runtime.Gosched()
+				}
+				for _, d := range pl.delays {
+					firstStart.CompareAndSwap(0, time.Now().UnixNano())
+					v, err := spawn(d)
+					lastEnd.Store(time.Now().UnixNano())
+					mu.Lock()
+					if err != nil {
+						spawnErrs = append(spawnErrs, err.Error())
+					} else {
+						fresh = append(fresh, v)
+					}
+					mu.Unlock()
+				}
+			}()
+		}
+		wg.Add(1)
+		go func() {
+			defer wg.Done()
+			for !gate.Load() {
+				runtime.Gosched()
+			}
+			for t := time.Now(); time.Since(t) < jitter; {
+				runtime.Gosched()
+			}
+			for _, v := range victims {
+				sys.Kill(v.ref, poison, "root-overlap")
+			}
+		}()
+		gate.Store(true)
+		wg.Wait()
+		if len(spawnErrs) > 0 {
+			// unique names, a running system, a live root: System.ActorOf has no reason to fail
+			mon("tree", fmt.Sprintf("root-overlap round %d: System.ActorOf failed while the root's children were terminating: %s", rounds, strings.Join(spawnErrs, "; ")))
+			violations++
+		}
+		everyone = append(everyone, fresh...)
+		// quiescence: the victims are gone from the registry, every new actor has been launched, the root is idle
+		gone := func() bool {
+			for _, v := range victims {
+				if v.a.killedAt.Load() == 0 {
+					return false
+				}
+				if _, err := sys.FindActor(v.ref.String()); err == nil {
+					return false
+				}
+			}
+			for _, v := range fresh {
+				if !v.a.launched.Load() {
+					return false
+				}
+			}
+			return rootIdle()
+		}
+		if !waitFor(5*time.Second, func() bool { return gone() && gone() }) {
+			mon("hang", fmt.Sprintf("root-overlap round %d (%d children killed, %d spawners): 5 s after the round the killed top-level actors are still registered / the new ones not launched / the root still busy\n%s",
+				rounds, k, nsp, stacks()))
+			break
+		}
+		inWindow := 0
+		for _, v := range victims {
+			if at := v.a.killedAt.Load(); at >= firstStart.Load() && at <= lastEnd.Load() {
+				inWindow++
+			}
+		}
+		if inWindow > 0 {
+			overlapped++
+			if inWindow == len(victims) { // the root's child table became empty while a spawn was in flight
+				lastChild++
+			}
+		}
+		// the tree monitor: registry <-> children <-> parent, and exactly the expected top-level population
+		root, nodes, _, _ := actor.XVRaceSnapshot(sys)
+		problems := checkTree(root, nodes)
+		want := map[string]bool{}
+		for _, v := range fresh {
+			want[v.ref.GetPath()] = true
+		}
+		inChildren := map[string]bool{}
+		for _, c := range root.Children {
+			inChildren[c] = true
+			if !want[c] {
+				problems = append(problems, "the root's children list "+c+", which is not one of the live top-level actors")
+			}
+		}
+		registered := map[string]bool{}
+		for _, n := range nodes {
+			registered[n.Path] = true
+			if !want[n.Path] {
+				problems = append(problems, n.Path+" is registered but is not one of the live top-level actors")
+			}
+		}
+		for _, v := range fresh {
+			p := v.ref.GetPath()
+			if !registered[p] {
+				problems = append(problems, "live top-level actor "+p+" (System.ActorOf returned it) is not registered")
+			}
+			if !inChildren[p] {
+				problems = append(problems, "live top-level actor "+p+" (System.ActorOf returned it, FindActor finds it: "+fmt.Sprint(registered[p])+") is missing from the root's children")
+			}
+		}
+		if len(problems) > 0 {
+			violations++
+			mon("tree", fmt.Sprintf("root-overlap round %d: the root had %d child(ren), all killed (poison=%v, %v after the spawners started) while %d goroutines called System.ActorOf (OnPrelaunch delays %v); at quiescence registry / children / parent disagree:\n%s",
+				rounds, k, poison, jitter, nsp, plans, strings.Join(dedup(problems), "\n")))
+		}
+		// the survivors are the next round's children of the root
+		keep := []int{0, 1, 1, 1, 2, 2}[r.Intn(6)]
+		victims = victims[:0]
+		for i, v := range fresh {
+			if i < keep {
+				victims = append(victims, v)
+			} else {
+				sys.Kill(v.ref, r.Bool(), "root-overlap cleanup")
+			}
+		}
+		rest := fresh[min(keep, len(fresh)):]
+		if !waitFor(5*time.Second, func() bool {
+			for _, v := range rest {
+				if v.a.killedAt.Load() == 0 {
+					return false
+				}
+			}
+			return true
+		}) {
+			mon("hang", fmt.Sprintf("root-overlap round %d: top-level actors killed on a quiet system did not terminate within 5 s\n%s", rounds, stacks()))
+			break
+		}
+	}
+	// System.Stop must stop every actor ever spawned
+	stopErr := make(chan error, 1)
+	go func() { stopErr <- sys.Stop() }()
+	select {
+	case err := <-stopErr:
+		if err == nil {
+			waitFor(2*time.Second, func() bool {
+				for _, v := range everyone {
+					if v.a.killedAt.Load() == 0 {
+						return false
+					}
+				}
+				return true
+			})
+			root, left, _, _ := actor.XVRaceSnapshot(sys)
+			var bad []string
+			for _, n := range left {
+				bad = append(bad, fmt.Sprintf("%s is still registered (state %d)", n.Path, n.State))
+			}
+			for _, c := range root.Children {
+				bad = append(bad, c+" is still a child of the root")
+			}
+			for _, v := range everyone {
+				if v.a.killedAt.Load() == 0 {
+					bad = append(bad, v.ref.GetPath()+" never received its own OnKilled (still running)")
+				}
+			}
+			if len(bad) > 0 {
+				if len(bad) > 30 {
+					bad = append(bad[:30], fmt.Sprintf("... %d more", len(bad)-30))
+				}
+				mon("tree", fmt.Sprintf("root-overlap: System.Stop returned nil after %d rounds but:\n%s", rounds, strings.Join(bad, "\n")))
+			}
+		} else {
+			mon("stop-failed", "root-overlap: System.Stop failed: "+err.Error())
+		}
+	case <-time.After(60 * time.Second):
+		mon("hang", "root-overlap: System.Stop did not return within 60 s\n"+stacks())
+	}
+	js, _ := json.Marshal(map[string]any{
+		"root_overlap_rounds": rounds, "root_overlap_rounds_child_died_during_inflight_spawn": overlapped,
+		"root_overlap_rounds_all_children_died_during_inflight_spawn": lastChild,
+		"root_overlap_children_of_root_histogram": fmt.Sprint(histK), "root_overlap_actors_spawned": len(everyone), "root_overlap_wall_s": time.Since(t0).Seconds(),
+	})
+	fmt.Printf("XVINFO\t%s\n", js)
+}
+
+func dedup(xs []string) []string {
+	seen := map[string]bool{}
+	var out []string
+	for _, x := range xs {
+		if !seen[x] {
+			seen[x] = true
+			out = append(out, x)
+		}
+	}
+	return out
 }
 
 func stacks() string {
